@@ -445,7 +445,10 @@ func (s *sim) judge(ri int, o obs) []viol {
 			case o.atDeath:
 				nd = ndDeath
 			default:
-				nd = faultLabel(s.usedFail, s.usedDeath)
+				// no fault in this step: either the signer's memory ran ahead of the file because an
+				// earlier write error was swallowed, or the logic itself releases without a record
+				// (a process death cannot make memory and file diverge: the memory is discarded)
+				nd = faultLabel(s.usedFail, false)
 			}
 			vs = append(vs, viol{Sig: mkSig("released-without-durable-record", nd, "none"),
 				Detail: fmt.Sprintf("signature for %s left the signer (%s) but %s", r.name, how, o.why)})
